@@ -43,6 +43,8 @@ enum Req {
     /// `map_get` / `map_get_ref`: the same programmes as `get` / `get_ref`
     MapGet(u64),
     MapGetRef(u64),
+    /// multi-key reads: 0 = multi_get (distinct keys), 1 = multi_get_iterator, 2 = multi_get_map_iterator
+    MGet(Vec<u64>, u8),
 }
 
 fn opt<T: std::fmt::Display>(value: &Option<T>) -> String { value.as_ref().map(|v| v.to_string()).unwrap_or("-".to_string()) }
@@ -54,6 +56,7 @@ impl Req {
             Req::PutFn(k, v, w, t) => format!("putw {} {} {} {} #fn", k, v, w, opt(t)),
             Req::MapGet(k) => format!("get {} #map", k),
             Req::MapGetRef(k) => format!("getref {} #map", k),
+            Req::MGet(ks, variant) => format!("mget {} {} #v{}", ks.iter().map(|k| k.to_string()).collect::<Vec<_>>().join(","), (*variant != 0) as u8, variant),
             Req::Delete(k) => format!("delete {}", k),
             Req::Get(k) => format!("get {}", k),
             Req::Weight => "weight".to_string(),
@@ -64,7 +67,7 @@ impl Req {
     }
 }
 
-enum CallOut { Send(Result<Arc<CommandAcknowledgement>, String>), Value(Option<u64>), Weight(i64), Unit }
+enum CallOut { Send(Result<Arc<CommandAcknowledgement>, String>), Value(Option<u64>), Values(Vec<Option<u64>>), Weight(i64), Unit }
 
 struct Slot {
     job: Mutex<Option<Box<dyn FnOnce(&Cache) -> CallOut + Send>>>,
@@ -246,6 +249,14 @@ impl World {
             Req::PutFn(k, v, _, Some(t)) => CallOut::Send(cache.put_with_ttl(k, v, duration_of(t)).map_err(|e| e.to_string())),
             Req::MapGet(k) => CallOut::Value(cache.map_get(&k, |value| value + 1_000_000).map(|value| value - 1_000_000)),
             Req::MapGetRef(k) => CallOut::Value(cache.map_get_ref(&k, |stored| stored.value() + 1_000_000).map(|value| value - 1_000_000)),
+            Req::MGet(ks, variant) => {
+                let refs: Vec<&u64> = ks.iter().collect();
+                CallOut::Values(match variant {
+                    0 => { let map = cache.multi_get(refs); if map.is_empty() { vec![] } else { ks.iter().map(|k| map.get(k).cloned().flatten()).collect() } }
+                    1 => cache.multi_get_iterator(refs).collect(),
+                    _ => cache.multi_get_map_iterator(refs, |value| value + 1_000_000).map(|value| value.map(|value| value - 1_000_000)).collect(),
+                })
+            }
             Req::Shutdown => { cache.shutdown(); CallOut::Unit }
             Req::Weight => CallOut::Weight(cache.total_weight_used()),
             Req::Upsert(k, v, w, t, rm) => {
@@ -274,6 +285,7 @@ impl World {
                 format!("ack {} {}", self.acks.len() - 1, if done { status_str(&status) } else { "pending".to_string() })
             }
             Ok(CallOut::Value(value)) => format!("value {}", opt(&value)),
+            Ok(CallOut::Values(values)) => format!("values {}", values.iter().map(opt).collect::<Vec<_>>().join(",")),
             Ok(CallOut::Weight(weight)) => format!("weight {}", weight),
             Ok(CallOut::Unit) => "none".to_string(),
         })
@@ -385,6 +397,7 @@ fn parse_req(tokens: &[&str]) -> Option<Req> {
         ("putw", 5) => Req::PutW(tokens[1].parse().ok()?, tokens[2].parse().ok()?, tokens[3].parse().ok()?, parse_opt(tokens[4])),
         ("putw", 6) if tokens[5] == "#fn" => Req::PutFn(tokens[1].parse().ok()?, tokens[2].parse().ok()?, tokens[3].parse().ok()?, parse_opt(tokens[4])),
         ("get", 3) if tokens[2] == "#map" => Req::MapGet(tokens[1].parse().ok()?),
+        ("mget", 4) => Req::MGet(tokens[1].split(',').filter(|t| !t.is_empty()).map(|t| t.parse().ok()).collect::<Option<Vec<u64>>>()?, tokens[3].trim_start_matches("#v").parse().ok()?),
         ("getref", 3) if tokens[2] == "#map" => Req::MapGetRef(tokens[1].parse().ok()?),
         ("delete", 2) => Req::Delete(tokens[1].parse().ok()?),
         ("get", 2) => Req::Get(tokens[1].parse().ok()?),
@@ -517,7 +530,13 @@ pub fn run(seed: u64, out: &str, args: &[String]) -> bool {
                             Req::PutFn(key, next_value, by_fn, ttl)
                         } else { Req::PutW(key, next_value, weight, ttl) },
                         3 => Req::Delete(key),
-                        4 | 5 => if extended && rng.chance(30) { Req::MapGet(key) } else { Req::Get(key) },
+                        4 | 5 => if extended && rng.chance(25) {
+                            // a multi-key read of 1-3 keys (distinct for the map-returning variant)
+                            let variant = rng.below(3) as u8;
+                            let mut ks: Vec<u64> = Vec::new();
+                            for _ in 0..(1 + rng.below(3)) { let k = rng.below(keys); if variant != 0 || !ks.contains(&k) { ks.push(k); } }
+                            Req::MGet(ks, variant)
+                        } else if extended && rng.chance(30) { Req::MapGet(key) } else { Req::Get(key) },
                         6 => Req::Weight,
                         _ => {
                             let shape = rng.below(16);
